@@ -103,6 +103,45 @@ class Arith:
         ty = fn.locals[l]
         if ty in ("u8", "&u8") and 1 <= l <= fn.nargs and fn.kind != "Closure":
             return ("B", 255)
+        # 64-bit cursors / counters: a local whose every update is `self + K` (or + a type-bounded value) cannot overflow
+        # within 2^64 steps of a loop; its class is that of its initial values, at least memory-bounded (M)
+        if not pl[1] and ty in ("usize", "u64", "i64", "isize"):
+            inits, selfinc, other = [], 0, 0
+            for d in fl.defs.get(l, ()):
+                if d[0] != "stmt":
+                    other += 1
+                    continue
+                st = fn.blocks[d[1]][0][d[2]]
+                if st[1] != [l, []]:
+                    continue
+                rv = st[2]
+                src = FL.op_place(rv[1]) if rv[0] == "use" else None
+                inc = None
+                if src is not None and src[1] and isinstance(src[1][0], list) and src[1][0][0] == "f" and src[1][0][1] == 0:
+                    # x = (tuple).0 where tuple = AddWithOverflow(x, k)
+                    for d2 in fl.defs.get(src[0], ()):
+                        if d2[0] == "stmt":
+                            r2 = fn.blocks[d2[1]][0][d2[2]][2]
+                            if r2[0] == "bin" and r2[1].startswith("Add"):
+                                for x, y in ((r2[2], r2[3]), (r2[3], r2[2])):
+                                    px = FL.op_place(x)
+                                    if px is not None and not px[1] and px[0] == l:
+                                        inc = y
+                if inc is not None:
+                    ci = self.classify(fn, inc, depth - 1, seen | {(l, 0)})
+                    if ci[0] in ("K", "B") and isinstance(ci[1], int) and 0 <= ci[1] < (1 << 32):
+                        selfinc += 1
+                        continue
+                    other += 1
+                else:
+                    inits.append(rv)
+            if selfinc and not other and depth > 0:
+                best0 = ("M", None)
+                for rv in inits:
+                    best0 = self._join(best0, self._classify_rvalue(fn, rv, depth - 1, seen | {(l, 0)}))
+                if best0[0] in ("K", "B"):
+                    best0 = ("M", None)
+                return best0
         best = None
         ndefs = 0
         for d in fl.defs.get(l, ()):
